@@ -168,6 +168,21 @@ pub fn sv_new(
     match r {
         Ok(s) => {
             call(sid, "new", true, "ok".to_string());
+            // debugging aid for replays: SIM_DUMP=<dir> writes every constructed problem, exactly
+            // as given, in the format load_from_file reads
+            if let Ok(dir) = std::env::var("SIM_DUMP") {
+                let mat = |m: &clarabel::algebra::CscMatrix<f64>| {
+                    serde_json::json!({"m": m.m, "n": m.n, "colptr": m.colptr, "rowval": m.rowval, "nzval": m.nzval})
+                };
+                let mut st = s.settings.clone();
+                if st.time_limit == f64::INFINITY {
+                    st.time_limit = f64::MAX;
+                }
+                let doc = serde_json::json!({"P": mat(&p), "q": prob.q, "A": mat(&a), "b": prob.b,
+                    "cones": serde_json::to_value(&cones).unwrap_or_default(),
+                    "settings": serde_json::to_value(&st).unwrap_or_default()});
+                let _ = std::fs::write(format!("{}/problem-s{}.json", dir, sid), doc.to_string());
+            }
             Ok(s)
         }
         Err(e) => {
